@@ -11,7 +11,7 @@
 // become the one whose flush is held) before going on; polls issued while a Write is held are concurrent callers:
 // with the journal call under metrics.lock they block until r, and then run at the clock reading of r.
 // Result: the journal's chunks (start:end in ticks, cardinal), for every accepted poll the chunks whose sketch
-// holds its address (merged count with the singleton sketch of the address under the same key is unchanged) and
+// holds its address (merging the sketch of the address alone, built under the same key, leaves the count unchanged) and
 // the tick at which ProxyPolls returned, and the unique-address figures.
 //
 //	metrics jsoak <goroutines> <polls each> <interval µs> <write µs>
@@ -19,9 +19,9 @@
 // goroutines x polls accepted polls, every one from its own address, all at once through IPC.ProxyPolls; the
 // journal's write interval is <interval> and every Write of the sink takes <write> (a slow disk at every flush).
 // Each poll is bracketed by two clock readings of the driver.  Afterwards the journal is flushed and read back
-// with the journal's OWN timestamps: lost = polls whose address is in no chunk; misplaced = in a chunk, but in
-// none whose span meets the poll's bracket; twice = in more than one chunk; extra = sum of the chunk cardinals
-// minus the polls found; tiled = every chunk starts where the previous one ended.
+// with the journal's OWN timestamps: lost = polled addresses that are in no chunk; misplaced = members of a chunk
+// whose poll was not in flight inside the chunk's span; twice = sum of the chunk cardinals minus the cardinal of
+// their union; tiled = every chunk starts where the previous one ended.
 package main
 
 import (
@@ -31,15 +31,19 @@ import (
 	"io"
 	"log"
 	"math"
+	"os"
+	"os/exec"
 	"strconv"
 	"strings"
 	"sync"
 	"sync/atomic"
+	"testing"
 	"time"
 
 	"git.torproject.org/pluggable-transports/snowflake.git/v2/common/ipsetsink"
 	"git.torproject.org/pluggable-transports/snowflake.git/v2/common/ipsetsink/sinkcluster"
 	"git.torproject.org/pluggable-transports/snowflake.git/v2/common/messages"
+	"github.com/clarkduvall/hyperloglog"
 )
 
 const c19JournalKey = "verif-key"
@@ -121,20 +125,49 @@ func c19ReadJournal(text string) ([]c19Chunk, error) {
 	return out, nil
 }
 
-// c19SingletonLine is a journal line with the span of c that holds exactly addr.
-func c19SingletonLine(c *c19Chunk, addr string) string {
-	s := ipsetsink.NewIPSetSink(c19JournalKey)
-	s.AddIPToSet(addr)
-	data, _ := s.Dump()
-	b, _ := json.Marshal(&sinkcluster.SinkEntry{RecordingStart: c.e.RecordingStart, RecordingEnd: c.e.RecordingEnd, Recorded: data})
-	return string(b)
-}
-
-// the reader's own merge: the chunk together with the singleton of addr counts what the chunk alone counts
-func c19Member(c *c19Chunk, addr string) bool {
-	r, err := sinkcluster.NewClusterCounter(c.e.RecordingStart, c.e.RecordingEnd).Count(
-		strings.NewReader(c.line + "\n" + c19SingletonLine(c, addr) + "\n"))
-	return err == nil && r.ChunkIncluded == 2 && r.Sum == c.card
+// c19MemberMatrix[i][j]: the sketch of chunk j holds addrs[i].  The sketch of the chunk is restored as the reader
+// restores it and merged, as the reader merges, with the sketch an IPSetSink under the same key builds from the one
+// address: the address is in the chunk iff the merge leaves the count as it is.  (A merge that adds an address
+// leaves it in the restored copy; the addresses tested occupy different cells, so later tests are not affected.)
+func c19MemberMatrix(chunks []c19Chunk, addrs []string) ([][]bool, error) {
+	single := map[string]*hyperloglog.HyperLogLogPlus{}
+	for _, a := range addrs {
+		if single[a] != nil {
+			continue
+		}
+		s := ipsetsink.NewIPSetSink(c19JournalKey)
+		s.AddIPToSet(a)
+		data, err := s.Dump()
+		if err != nil {
+			return nil, err
+		}
+		h, _ := hyperloglog.NewPlus(18)
+		if err := h.GobDecode(data); err != nil {
+			return nil, err
+		}
+		single[a] = h
+	}
+	out := make([][]bool, len(addrs))
+	for j := range chunks {
+		hc, _ := hyperloglog.NewPlus(18)
+		if err := hc.GobDecode(chunks[j].e.Recorded); err != nil {
+			return nil, err
+		}
+		seen := map[string]bool{} // an address is tested once per chunk
+		for i, a := range addrs {
+			in, done := seen[a]
+			if !done {
+				before := hc.Count()
+				if err := hc.Merge(single[a]); err != nil {
+					return nil, err
+				}
+				in = hc.Count() == before
+				seen[a] = in
+			}
+			out[i] = append(out[i], in)
+		}
+	}
+	return out, nil
 }
 
 type c19CJop struct {
@@ -324,10 +357,14 @@ func c19JconcOnce(k int64, ops []c19CJop, tick time.Duration) (res string, ok bo
 	for _, c := range chunks {
 		cs = append(cs, fmt.Sprintf("%d:%d:%d", int64(c.e.RecordingStart.Sub(t0)/tick), int64(c.e.RecordingEnd.Sub(t0)/tick), c.card))
 	}
-	for i, a := range addrs {
+	matrix, err := c19MemberMatrix(chunks, addrs)
+	if err != nil {
+		return "!sketch " + err.Error(), true
+	}
+	for i := range addrs {
 		var in []string
 		for j := range chunks {
-			if c19Member(&chunks[j], a) {
+			if matrix[i][j] {
 				in = append(in, strconv.Itoa(j))
 			}
 		}
@@ -411,7 +448,45 @@ func c19Universe(n int) []string {
 	return out
 }
 
+// c19Jsoak runs the soak in a child process (this test binary again): unsynchronised access to the journal's sketch makes
+// the Go runtime stop the whole process ("fatal error: concurrent map writes"), which no recover() catches.
 func c19Jsoak(args []string) string {
+	if len(args) != 4 {
+		return "!badcase"
+	}
+	for _, a := range args {
+		if n, err := strconv.Atoi(a); err != nil || n < 0 {
+			return "!badcase"
+		}
+	}
+	cmd := exec.Command(os.Args[0], "-test.run", "^TestVerifC19SoakChild$")
+	cmd.Env = append(os.Environ(), "VERIF_C19_SOAK_ARGS="+strings.Join(args, " "))
+	var out, errb bytes.Buffer
+	cmd.Stdout, cmd.Stderr = &out, &errb
+	runErr := cmd.Run()
+	for _, l := range strings.Split(out.String(), "\n") {
+		if strings.HasPrefix(l, "SOAK-RESULT ") {
+			return strings.TrimPrefix(l, "SOAK-RESULT ")
+		}
+	}
+	for _, l := range strings.Split(errb.String()+"\n"+out.String(), "\n") {
+		if strings.HasPrefix(l, "fatal error: ") || strings.HasPrefix(l, "panic: ") {
+			return "!fatal " + strings.ReplaceAll(l, " ", "_")
+		}
+	}
+	return "!fatal child_ended_without_result_" + strings.ReplaceAll(fmt.Sprint(runErr), " ", "_")
+}
+
+func TestVerifC19SoakChild(t *testing.T) {
+	a := os.Getenv("VERIF_C19_SOAK_ARGS")
+	if a == "" {
+		t.Skip("child of the jsoak op only")
+	}
+	fmt.Println("SOAK-RESULT " + c19JsoakRun(strings.Split(a, " ")))
+	os.Exit(0)
+}
+
+func c19JsoakRun(args []string) string {
 	if len(args) != 4 {
 		return "!badcase"
 	}
@@ -425,7 +500,7 @@ func c19Jsoak(args []string) string {
 		v[i] = n
 	}
 	g, per := v[0], v[1]
-	if g < 1 || per < 1 || g*per > 100000 {
+	if g < 1 || per < 1 || g*per > 6000 { // linear counting over 2^25 cells is exact below 8192
 		return "!badcase"
 	}
 	addrs := c19Universe(g * per)
@@ -478,41 +553,64 @@ func c19Jsoak(args []string) string {
 		}
 		prev = c.e.RecordingEnd
 	}
-	lost, misplaced, twice, found := 0, 0, 0, 0
-	var sum uint64
+	if len(chunks) == 0 {
+		return "!journal empty"
+	}
+	// Sets are compared through the reader's own merge (ClusterCounter.Count over lines of the journal plus lines
+	// built here with IPSetSink under the same key); all addresses occupy different cells, so the counts are exact:
+	// |X n Y| = |X| + |Y| - |X u Y|.
+	lineOf := func(list []string, from, to time.Time) string {
+		sk := ipsetsink.NewIPSetSink(c19JournalKey)
+		for _, a := range list {
+			sk.AddIPToSet(a)
+		}
+		data, _ := sk.Dump()
+		b, _ := json.Marshal(&sinkcluster.SinkEntry{RecordingStart: from, RecordingEnd: to, Recorded: data})
+		return string(b) + "\n"
+	}
+	count := func(text string, from, to time.Time) (int64, bool) {
+		r, err := sinkcluster.NewClusterCounter(from, to).Count(strings.NewReader(text))
+		if err != nil {
+			return 0, false
+		}
+		return int64(r.Sum), true
+	}
+	first, last := chunks[0].e.RecordingStart, chunks[0].e.RecordingEnd
+	var sum int64
+	var whole strings.Builder
 	for _, c := range chunks {
-		sum += c.card
-	}
-	for i, a := range addrs {
-		near, far := 0, 0
-		meets := func(c *c19Chunk) bool {
-			return !c.e.RecordingEnd.Before(br[i].a) && !c.e.RecordingStart.After(br[i].b)
+		if c.e.RecordingStart.Before(first) {
+			first = c.e.RecordingStart
 		}
-		for j := range chunks {
-			if meets(&chunks[j]) && c19Member(&chunks[j], a) {
-				near++
+		if c.e.RecordingEnd.After(last) {
+			last = c.e.RecordingEnd
+		}
+		sum += int64(c.card)
+		whole.WriteString(c.line + "\n")
+	}
+	union, ok1 := count(whole.String(), first, last)
+	withAll, ok2 := count(whole.String()+lineOf(addrs, first, last), first, last)
+	if !ok1 || !ok2 {
+		return "!count"
+	}
+	found := int64(len(addrs)) + union - withAll // polled addresses that are in some chunk
+	lost := int64(len(addrs)) - found
+	twice := sum - union // addresses that are in more than one chunk, counted once per extra chunk
+	var misplaced int64
+	for j := range chunks {
+		c := &chunks[j]
+		var cands []string
+		for i, a := range addrs {
+			if !c.e.RecordingEnd.Before(br[i].a) && !c.e.RecordingStart.After(br[i].b) {
+				cands = append(cands, a)
 			}
 		}
-		if near == 0 { // not where it belongs: anywhere else?
-			for j := range chunks {
-				if !meets(&chunks[j]) && c19Member(&chunks[j], a) {
-					far++
-				}
-			}
+		both, ok := count(c.line+"\n"+lineOf(cands, c.e.RecordingStart, c.e.RecordingEnd), c.e.RecordingStart, c.e.RecordingEnd)
+		if !ok {
+			return "!count"
 		}
-		switch {
-		case near+far == 0:
-			lost++
-		case near == 0:
-			misplaced++
-			found++
-		default:
-			found++
-		}
-		if near+far > 1 {
-			twice++
-		}
+		inside := int64(len(cands)) + int64(c.card) - both // members of the chunk whose poll was in flight inside its span
+		misplaced += int64(c.card) - inside
 	}
-	extra := int64(sum) - int64(found)
-	return fmt.Sprintf("polls=%d lost=%d misplaced=%d twice=%d extra=%d tiled=%d", g*per, lost, misplaced, twice, extra, tiled)
+	return fmt.Sprintf("polls=%d lost=%d misplaced=%d twice=%d tiled=%d", g*per, lost, misplaced, twice, tiled)
 }
